@@ -113,6 +113,12 @@ def gen_cases(rng, tier):
         for z, env in ((True, False), (False, False), (False, True)):
             cases.append({'kind': 'roundtrip', 'pkg': [{'name': 'res0', 'fields': [['alpha', 'string'], ['beta', 'string']], 'rows': rows_enc(pad_rows)}],
                           'format': fmt, 'zip': z, 'hashpath': False, 'tfp': False, 'tfp_fields': [], 'fprops': [], 'mutate_after': False, 'via_env': env})
+    # primary keys in the string and in the list form (rows unique in the key): the key survives the dump and the load
+    for fmt in ('csv', 'json'):
+        for pk in ('alpha', ['alpha'], ['alpha', 'beta'], 'beta'):
+            rows_ = [{'alpha': 1, 'beta': 'x', 'gamma': 'u'}, {'alpha': 2, 'beta': 'y', 'gamma': 'v'}]
+            cases.append({'kind': 'roundtrip', 'pkg': [{'name': 'res0', 'fields': [['alpha', 'integer'], ['beta', 'string'], ['gamma', 'string']], 'rows': rows_enc(rows_), 'pk': pk}],
+                          'format': fmt, 'zip': fmt == 'json', 'hashpath': False, 'tfp': False, 'tfp_fields': [], 'fprops': [], 'mutate_after': False, 'via_env': False})
     # (string-valued rows: the model lays them out under the header itself, see coq_term)
     for ko in ('rotate', 'reverse'):
         rows_ = [{'alpha': 'p', 'beta': 'x,y', 'gamma': 'u'}, {'alpha': 'q', 'beta': None, 'gamma': 'v "w"'}, {'alpha': '', 'beta': 'z', 'gamma': 'line\nbreak'}]
@@ -132,6 +138,9 @@ def gen_cases(rng, tier):
             cases.append({'kind': 'roundtrip', 'pkg': [{'name': 'res0', 'fields': [['alpha', 'integer'], ['beta', 'string']], 'rows': rows_enc(rows_)}],
                           'format': fmt, 'zip': False, 'hashpath': False, 'tfp': False, 'tfp_fields': [], 'fprops': [], 'mutate_after': False,
                           'via_env': False, 'mv': mv})
+    for fmt, z in (('csv', False), ('json', False), ('csv', True)):
+        cases.append({'kind': 'localedump', 'format': fmt, 'zip': z, 'ascii': True})
+    cases.append({'kind': 'localedump', 'format': 'csv', 'zip': False, 'ascii': False})
     # histories of dumps into one directory: successful and failing runs of different data in any order; whenever a run
     # succeeds, the package in the directory loads back as what that run dumped (round 8)
     hist = [[a, b, c] for a in ('A', 'B', 'Bfail') for b in ('A', 'B', 'Afail', 'Bfail') for c in ('A', 'B')]
@@ -221,7 +230,48 @@ def run_samedir(case):
         shutil.rmtree(base, ignore_errors=True)
 
 
+LOCALE_DUMP = '''
+import json
+from dataflows import Flow, dump_to_path, dump_to_zip, update_resource, update_package
+rows = [{'a': 1, 'b': 'x'}, {'a': 2, 'b': 'y'}]
+step = dump_to_zip(%(target)r, format=%(fmt)r) if %(zip)r else dump_to_path(%(target)r, format=%(fmt)r)
+Flow(rows, update_package(title='Caf' + chr(233) + ' ' + chr(9731)), update_resource(-1, title='r' + chr(233) + 'sum' + chr(233)), step).process()
+print('RESULT ' + json.dumps('dumped'))
+'''
+
+
+def run_localedump(case):
+    """the dump made by an interpreter whose default text encoding is ASCII (ASCII-only rows, non-ASCII titles in the
+    descriptor), read back here"""
+    base = os.path.join(scratch(), 'c3loc_%s' % digest(case))
+    shutil.rmtree(base, ignore_errors=True)
+    os.makedirs(base)
+    target = os.path.join(base, 'out.zip' if case['zip'] else 'out')
+    try:
+        got, err = child_python(LOCALE_DUMP % {'target': target, 'fmt': case['format'], 'zip': case['zip']}, ascii_locale=case['ascii'])
+        if got != 'dumped':
+            return {'error': 'the dump failed: %s' % err[-250:]}
+        if case['zip']:
+            with zipfile.ZipFile(target) as z:
+                raw = z.read('datapackage.json')
+        else:
+            raw = open(os.path.join(target, 'datapackage.json'), 'rb').read()
+        try:
+            desc = json.loads(raw.decode('utf-8'))
+        except Exception as e:
+            return {'error': 'datapackage.json is not UTF-8 JSON: %s' % e}
+        with quiet():
+            rows, dp, _ = Flow(DF.load(target, format='datapackage') if case['zip'] else DF.load(os.path.join(target, 'datapackage.json'))).results()
+        return {'title': desc.get('title'), 'rtitle': desc['resources'][0].get('title'), 'rows': rows[0]}
+    except Exception as e:
+        return {'error': '%s: %s' % (type(e).__name__, str(e)[:200])}
+    finally:
+        shutil.rmtree(base, ignore_errors=True)
+
+
 def run_impl(case):
+    if case['kind'] == 'localedump':
+        return run_localedump(case)
     if case['kind'] in ('csvlayer', 'csvtext'):
         return run_csv(case)
     if case['kind'] == 'samedir':
@@ -240,7 +290,7 @@ def run_impl(case):
                 if rn == r['name'] and fn == nm:
                     f.update(copy.deepcopy(pr))
             fields.append(f)
-        res.append({'name': r['name'], 'fields': fields, 'rows': rows_dec(r['rows']), 'missingValues': case.get('mv')})
+        res.append({'name': r['name'], 'fields': fields, 'rows': rows_dec(r['rows']), 'missingValues': case.get('mv'), 'pk': r.get('pk')})
     kw = {'format': case['format'], 'add_filehash_to_path': case['hashpath']}
     if case['tfp']:
         kw['temporal_format_property'] = 'outputFormat'
@@ -366,6 +416,13 @@ def independent_decode(case, out):
 
 
 def oracle(case, out):
+    if case['kind'] == 'localedump':
+        what = 'a %s dump (%s) made under %s default text encoding' % (case['format'], 'zip' if case['zip'] else 'path', 'an ASCII' if case['ascii'] else 'the usual')
+        if 'error' in out:
+            return '%s: %s' % (what, out['error'])
+        if out['title'] != 'Caf\u00e9 \u2603' or out['rtitle'] != 'r\u00e9sum\u00e9' or out['rows'] != [{'a': 1, 'b': 'x'}, {'a': 2, 'b': 'y'}]:
+            return '%s loads back with titles %r / %r and rows %r' % (what, out['title'], out['rtitle'], out['rows'])
+        return None
     if case['kind'] == 'csvtext':
         return None
     if case['kind'] == 'csvlayer':
@@ -397,6 +454,11 @@ def oracle(case, out):
     if [d['name'] for d in out['loaded_desc']] != [r['name'] for r in case['pkg']]:
         return 'resources %r, dumped %r' % ([d['name'] for d in out['loaded_desc']], [r['name'] for r in case['pkg']])
     for ri, (g, e) in enumerate(zip(got, exp)):
+        want_pk = case['pkg'][ri].get('pk')
+        got_pk = out['loaded_desc'][ri].get('pk')
+        norm = lambda x: [] if not x else ([x] if isinstance(x, str) else list(x))
+        if norm(got_pk) != norm(want_pk):
+            return 'resource %d: primary key %r after dump and load, the dumped resource has %r' % (ri, got_pk, want_pk)
         if out['loaded_desc'][ri]['fields'] != case['pkg'][ri]['fields']:
             return 'resource %d: fields %r, dumped %r' % (ri, out['loaded_desc'][ri]['fields'], case['pkg'][ri]['fields'])
         if len(g) != len(e):
@@ -437,7 +499,7 @@ def finding(case, out, failure):
 
 
 def coq_term(case, out):
-    if case['kind'] == 'samedir':
+    if case['kind'] in ('samedir', 'localedump'):
         return None
     if case['kind'] in ('csvlayer', 'csvtext'):
         rd = ('match read_csv %s with Ok r => list_eqb (list_eqb str_eqb) r %s | Err _ => false end' % (cstr(out['text']), clist([cstrs(r) for r in out['read']]))
